@@ -714,14 +714,20 @@ package server
 //@ spec func writerInv(w) = w == nil || (0 <= w.index && w.index + 64 <= len(w.buf))
 // C14: the reply frame the binary connection writes is the README's result layout of (command, result, lcount, lrcount)
 //@ spec func bytesInB(b, o, a, n) = forall(k, 0, n, b[o+k] == a[k])
-//@ spec func resultFrame(b, c, result, lcount, lrcount, hasData) = b[0] == protocol.MAGIC && b[1] == protocol.VERSION && b[2] == c.CommandType && bytesInB(b, 3, c.RequestId, 16) && b[19] == result && b[20] == ite(hasData, protocol.LOCK_FLAG_CONTAINS_DATA, 0) && b[21] == c.DbId && bytesInB(b, 22, c.LockId, 16) && bytesInB(b, 38, c.LockKey, 16) && b[54] + b[55]*256 == lcount && b[56] + b[57]*256 == c.Count && b[58] == lrcount && b[59] == c.Rcount && b[60] == 0 && b[61] == 0 && b[62] == 0 && b[63] == 0
+//@ spec func resultFrameHead(b, c, result, hasData) = b[0] == protocol.MAGIC && b[1] == protocol.VERSION && b[2] == c.CommandType && b[19] == result && b[20] == ite(hasData, protocol.LOCK_FLAG_CONTAINS_DATA, 0) && b[21] == c.DbId
+//@ spec func resultFrameIds(b, c) = bytesInB(b, 3, c.RequestId, 16) && bytesInB(b, 22, c.LockId, 16) && bytesInB(b, 38, c.LockKey, 16)
+//@ spec func resultFrameCounts(b, c, lcount, lrcount) = b[54] == lcount % 256 && b[55] == lcount / 256 && b[56] == c.Count % 256 && b[57] == c.Count / 256 && b[58] == lrcount && b[59] == c.Rcount && b[60] == 0 && b[61] == 0 && b[62] == 0 && b[63] == 0
 //@ func (*BinaryServerProtocol).ProcessLockResultCommand
 //@   requires self != nil && command != nil && self.glock != nil && self.slock != nil && implies(!self.closed, self.stream != nil && !isnil(self.stream.conn) && writerInv(self.stream.writerBuffer))
 //@   safe C13
 //@   loop#1 invariant 0 <= n
 //@   ensures C13.writer.room: implies(!old(self.closed), writerInv(self.stream.writerBuffer) && self.stream == old(self.stream))
-//@   at call LoadUint32 assert C14.result.frame: resultFrame(self.wbuf, command, result, lcount, lrcount, !isnil(data))
-//@   at call Write#1 assert C14.result.frame: resultFrame(self.wbuf, command, result, lcount, lrcount, !isnil(data))
+//@   at call LoadUint32 assert C14.result.head: resultFrameHead(self.wbuf, command, result, !isnil(data))
+//@   at call LoadUint32 assert C14.result.ids: resultFrameIds(self.wbuf, command)
+//@   at call LoadUint32 assert C14.result.counts: resultFrameCounts(self.wbuf, command, lcount, lrcount)
+//@   at call Write#1 assert C14.result.head: resultFrameHead(self.wbuf, command, result, !isnil(data))
+//@   at call Write#1 assert C14.result.ids: resultFrameIds(self.wbuf, command)
+//@   at call Write#1 assert C14.result.counts: resultFrameCounts(self.wbuf, command, lcount, lrcount)
 
 // =====================================================================================================
 // C14: the server's hand-inlined LOCK / UNLOCK frame decoder must agree with the README layout
